@@ -209,6 +209,38 @@ theorem serviceObjects_methods (s : Service) :
       serviceObjects { name := none, basePath := none, methods := [m] } := by
   simp [serviceObjects]
 
+theorem isListRequest_congr (c c' : Ctx) (req : List Property) (h : AgreeOn c c' (refsProps req)) :
+    isListRequest c req = isListRequest c' req := by
+  unfold isListRequest
+  induction req with
+  | nil => rfl
+  | cons p rest ih =>
+    have h1 : AgreeOn c c' (refsProperty p) := fun r hr => h r (by simp [refsProps, hr])
+    have h2 : AgreeOn c c' (refsProps rest) := fun r hr => h r (by simp [refsProps, hr])
+    simp only [List.any_cons, ih h2]
+    congr 1
+    cases p with
+    | mk name req opt schema =>
+      cases schema <;> simp only [Property.schema]
+      case objectRef pkg sc fl rules =>
+        rw [h1 (pkg, sc) (by simp [refsProperty, refsField])]
+
+theorem listMethodErr_congr (c c' : Ctx) (m : Method)
+    (h : AgreeOn c c' ((serviceObjects { name := none, basePath := none, methods := [m] }).flatMap
+      fun x => refsProps x.2)) :
+    listMethodErr c m = listMethodErr c' m := by
+  unfold listMethodErr
+  cases hr : m.request with
+  | none => rfl
+  | some req =>
+    simp only []
+    rw [isListRequest_congr c c' req]
+    intro r hrr
+    apply h r
+    simp only [serviceObjects, List.flatMap_cons, List.flatMap_nil, hr, List.append_nil,
+      List.mem_append, List.mem_flatMap]
+    exact ⟨(m.name ++ b!"Request", req), Or.inl (by simp), by simpa using hrr⟩
+
 theorem convService_congr (c c' : Ctx) (s : Service)
     (h : AgreeOn c c' ((serviceObjects s).flatMap fun x => refsProps x.2)) :
     convService c s = convService c' s := by
@@ -222,8 +254,18 @@ theorem convService_congr (c c' : Ctx) (s : Service)
     simp only [List.mem_flatMap] at hr ⊢
     obtain ⟨x, hx, hrx⟩ := hr
     exact ⟨x, ⟨m, hm, hx⟩, hrx⟩
+  have hl : s.methods.map (listMethodErr c) = s.methods.map (listMethodErr c') := by
+    apply List.map_congr_left
+    intro m hm
+    apply listMethodErr_congr
+    intro r hr
+    apply h r
+    rw [serviceObjects_methods]
+    simp only [List.mem_flatMap] at hr ⊢
+    obtain ⟨x, hx, hrx⟩ := hr
+    exact ⟨x, ⟨m, hm, hx⟩, hrx⟩
   unfold convService
-  rw [hw]
+  rw [hw, hl]
 
 theorem acceptTopic_congr (c c' : Ctx) (t : TopicNode)
     (h : AgreeOn c c' ((t.msgs.filterMap fun m =>
